@@ -191,11 +191,11 @@ def B8_history_tables(ctx):
         if w:
             n_w += 1
             v = w[0].d['value']
-            ok = newer and ret == ('const', 'true') and v[0] == 'agg' and v[1].endswith('EntryState') and v[3] == (('arg', 2), ('arg', 3))
+            ok = newer and path_truth(p, ret) is True and v[0] == 'agg' and v[1].endswith('EntryState') and v[3] == (('arg', 2), ('arg', 3))
             if not ok:
                 bad.append(p)
         else:
-            if not (stale and ret == ('const', 'false')):
+            if not (stale and path_truth(p, ret) is False):
                 bad.append(p)
     ctx.ob('B8', rec, 'record-only-newer-incarnation', n_w == 1 and not bad, f'{len(bad)} deviating path(s)', site=rec.loc(rec.b['lo']),
            what='a record is accepted only for a strictly newer incarnation (a stale execution must not resurrect data invalidated by validation), and writes (incarnation, value)')
